@@ -19,7 +19,7 @@ Hdr == Tr[1]
 
 VARIABLES file, tmp, gen, pc, done, old, okend, l
 
-M == INSTANCE ContentSave WITH NCopies <- Hdr.copies, NChunks <- Hdr.chunks, NSaves <- Hdr.saves, Guarded <- TRUE
+M == INSTANCE ContentSave WITH NCopies <- Hdr.copies, NChunks <- Hdr.chunks, NSaves <- Hdr.saves, Guarded <- TRUE, WriteFaults <- TRUE, VerifyAll <- TRUE
 
 vars == <<file, tmp, gen, pc, done, old, okend, l>>
 Copies == 1..Hdr.copies
@@ -28,12 +28,12 @@ Is(e) == l <= Len(Tr) /\ Ev.e = e
 
 Init == /\ l = 2
         /\ file = [c \in Copies |-> 0]
-        /\ tmp = [c \in Copies |-> [ex |-> FALSE, n |-> 0, syn |-> FALSE]]
+        /\ tmp = [c \in Copies |-> [ex |-> FALSE, n |-> 0, syn |-> FALSE, bad |-> FALSE]]
         /\ gen = 0 /\ pc = "idle" /\ done = M!NoneDone /\ old = file /\ okend = FALSE
 
 Reset == /\ Is("Reset")
          /\ file' = [c \in Copies |-> 0]
-         /\ tmp' = [c \in Copies |-> [ex |-> Ev.tmp[c], n |-> IF Ev.tmp[c] THEN 1 ELSE 0, syn |-> FALSE]]
+         /\ tmp' = [c \in Copies |-> [ex |-> Ev.tmp[c], n |-> IF Ev.tmp[c] THEN 1 ELSE 0, syn |-> FALSE, bad |-> FALSE]]
          /\ gen' = 0 /\ pc' = "idle" /\ done' = M!NoneDone /\ old' = file' /\ okend' = FALSE
 
 \* reads of the temporary before its end: the guard of Verify must hold (everything written and flushed,
@@ -53,8 +53,12 @@ Next == /\ l' = l + 1
            \/ (Is("Remove") /\ M!TmpRemove(Ev.c))
            \/ (Is("Create") /\ M!TmpCreate(Ev.c))
            \/ (Is("Write") /\ M!TmpWrite(Ev.c))
+           \/ (Is("WriteBad") /\ M!TmpWriteBad(Ev.c))
+           \/ (Is("Exit") /\ pc \in {"failed", "idle"} /\ pc' = "idle" /\ UNCHANGED <<file, tmp, gen, done, old, okend>>)
            \/ (Is("Fsync") /\ M!TmpFsync(Ev.c))
            \/ ReadMore
+           \* the copies are re-read by one thread each: after one of them has failed the others are still read to their end
+           \/ (Is("Read") /\ pc = "failed" /\ UNCHANGED <<file, tmp, gen, pc, done, old, okend>>)
            \/ (Is("Read") /\ Ev.eof /\ M!Verify(Ev.c))
            \/ (Is("Rename") /\ M!Rename(Ev.c))
            \/ (Is("End") /\ M!End)
